@@ -367,7 +367,15 @@ func Lookup(m *Node, l int64) *Node {
 }
 
 func okContentType(s string) bool {
-	return len(s) > 0 && s[0] != ' ' && s[len(s)-1] != ' ' && strings.Contains(s, "/")
+	if len(s) == 0 || s[0] == ' ' || s[len(s)-1] == ' ' || !strings.Contains(s, "/") {
+		return false
+	}
+	// "<type-name>/<subtype-name>" (RFC 6838 section 4.2): neither name can hold a slash, so a text without
+	// parameters has exactly one. (Texts with a ';' are left alone: a quoted parameter value may hold one.)
+	if !strings.Contains(s, ";") && strings.Count(s, "/") != 1 {
+		return false
+	}
+	return true
 }
 
 // HeaderRulesWire implements DESIGN.md appendix A.2 on wire trees. prot/unprot
